@@ -262,6 +262,35 @@ def lookup_rule(ctx, rep, se):
     rep.check(good, "transcript", HF, "digit-lookup", why, "the digits hashed are not '0' + (position of each digit in the remapped grid): " + why, body.loc())
 
 
+def _integer_gate(ctx, rep, se, HF, lo, hi, somes, nones):
+    """the 4..10 digit gate decided on the number itself: `pin < 10^(MIN-1)` => None, and no upper
+    test because the parameter's type cannot hold more than MAX digits.  (That pin_to_bytes
+    yields exactly the decimal digits is the `digits` rule.)"""
+    body = se.body
+    if lo is None or hi is None:
+        return False
+    pty = body.local_ty(1)
+    tmax = {"u8": 2 ** 8 - 1, "u16": 2 ** 16 - 1, "u32": 2 ** 32 - 1, "u64": 2 ** 64 - 1}.get(pty.s if pty is not None else "")
+    gate = None
+    for bb, d, f_t, t_t in util.bool_switches(se):
+        x = util.numnorm(d)
+        if x[0] == "binop" and x[1] == "Lt" and strip(x[2]) == ("param", 1) and x[3][:2] == ("int", 10 ** (lo - 1)):
+            gate = (bb, t_t, f_t)
+        if x[0] == "binop" and x[1] == "Ge" and strip(x[2]) == ("param", 1) and x[3][:2] == ("int", 10 ** (lo - 1)):
+            gate = (bb, f_t, t_t)
+    if gate is None or tmax is None:
+        return False
+    sw, out_t, in_t = gate
+    rep.check(len(str(tmax)) == hi, "gate", HF, "length-tests", "pin < %d (fewer than %d digits) is refused; a %s has at most %d digits" % (10 ** (lo - 1), lo, pty.s, len(str(tmax))), "the parameter type %s can hold %d digits, the maximum is %d: an upper test is needed" % (pty.s, len(str(tmax)), hi), body.loc(sw))
+    hash_blocks = [bi for bi, t in body.calls() if (t.get("callee") or "").endswith("Digest::new")] + [somes[0][0]]
+    bad = [bi for bi in hash_blocks if not cfg.must_pass_edge(body, (sw, in_t), bi)]
+    rep.check(not bad, "gate", HF, "hash-only-in-range", "hashing only behind pin >= %d" % 10 ** (lo - 1), "hashing reachable without passing the test on the pin (bb%s)" % bad, body.loc())
+    r_out = cfg.reachable(body, start=out_t)
+    r_in = cfg.reachable(body, start=in_t)
+    rep.check(bool(nones) and any(bi in r_out and bi not in r_in for bi, _ in nones) and somes[0][0] not in cfg.reachable(body, cut_edges=[(sw, in_t)]), "gate", HF, "none-out-of-range", "too small pins lead to None", "the refused edge does not lead to None", body.loc())
+    return True
+
+
 def check(ctx, rep):
     fb = ctx.fb
     from rules import algos
@@ -372,6 +401,8 @@ def check(ctx, rep):
         r_out = cfg.reachable(body, start=out_t)
         r_in = cfg.reachable(body, start=in_t)
         rep.check(bool(nones) and all(bi in r_out and bi not in r_in for bi, _ in nones) and somes[0][0] not in cfg.reachable(body, cut_edges=[(sw, in_t)]), "gate", HF, "none-out-of-range", "out-of-range lengths lead to None", "out-of-range edges do not lead to None", body.loc())
+    elif not lt and not gt and _integer_gate(ctx, rep, se, HF, lo, hi, somes, nones):
+        pass
     elif not lt or not gt:
         rep.violation("gate", HF, "length-tests", "length tests `len < 4` / `len > 10` on the digit slice not found", body.loc())
     else:
